@@ -89,6 +89,21 @@ example : isErr (build orc {} (stepWith [(.str (S "command"), .str (S "true")),
       (.str (S "executor"), .map [(.str (S "type"), .str (S "docker")),
         (.str (S "config"), .map [(.str (S "x"), .list [.float false])])])])) = true := by decide
 
+/-! schedule maps: a null / wrong-typed value under start / stop / restart is ignored and leaves the other keys'
+    lists alone (whatever the order of the entries); a wrong-typed schedule at the top level or a non-string
+    list element is an error -/
+def schedOf (t : Tree) : Tree := doc [(.str (S "schedule"), t)]
+def c1 : Str := S "0 1 * * *"
+example : okAnd (build orc {} (schedOf (.map [(.str (S "start"), .str c1), (.str (S "stop"), .null)])))
+    (fun d => d.starts == [c1] && d.stops.isEmpty && d.restarts.isEmpty) = true := by decide
+example : okAnd (build orc {} (schedOf (.map [(.str (S "stop"), .int 5), (.str (S "start"), .str c1), (.str (S "restart"), .map [])])))
+    (fun d => d.starts == [c1] && d.stops.isEmpty && d.restarts.isEmpty) = true := by decide
+example : okAnd (build orc {} (schedOf (.map [(.str (S "start"), .str c1), (.str (S "stop"), .bool true), (.str (S "restart"), .float true)])))
+    (fun d => d.starts == [c1] && d.stops.isEmpty && d.restarts.isEmpty) = true := by decide
+example : isErr (build orc {} (schedOf (.int 5))) = true := by decide
+example : isErr (build orc {} (schedOf (.list [.str c1, .int 5]))) = true := by decide
+example : isErr (build orc {} (schedOf (.map [(.str (S "start"), .list [.str c1, .null])]))) = true := by decide
+
 /-! stop signals: `parseMiscs` validates and stores the SAME string, so only spellings `unix.SignalNum` knows are
     accepted and the stored name is the one the stop path resolves (`C13_accepted`: `s.signal = [] ∨ o.sigOk s.signal`) -/
 def orcSig : Orc := { cronOk := fun _ => true, sigOk := fun s => s == S "SIGINT" || s == S "SIGUSR1" }
